@@ -2,6 +2,7 @@ package rt
 
 import (
 	"fmt"
+	"reflect"
 	"runtime"
 	"sync"
 	"sync/atomic"
@@ -612,3 +613,66 @@ func Stamp() uint64 {
 func ResetStamp() { stampCtr = 0 }
 
 var stampCtr uint64
+
+// ---- channels of package validate (R3): a blocking channel operation must never block while holding the baton ----
+
+func chanKey(ch any) unsafe.Pointer {
+	return unsafe.Pointer(reflect.ValueOf(ch).Pointer())
+}
+
+// Recv replaces `<-ch`: a scheduling point, then a non-blocking receive retried until it succeeds; while the channel is
+// not ready the task is marked blocked on it and somebody else runs.
+func Recv[T any](ch <-chan T, site int) T {
+	v, _ := RecvOK(ch, site)
+	return v
+}
+
+func RecvOK[T any](ch <-chan T, site int) (T, bool) {
+	t := runningTask()
+	if t == nil {
+		v, ok := <-ch
+		return v, ok
+	}
+	t.yieldAt(site)
+	if ch == nil {
+		for {
+			t.blockOn(nil) // receive from a nil channel blocks forever
+		}
+	}
+	for {
+		select {
+		case v, ok := <-ch:
+			t.unlocked(chanKey(ch), site)
+			return v, ok
+		default:
+			t.blockOn(chanKey(ch))
+		}
+	}
+}
+
+// Send replaces `ch <- v`.
+func Send[T any](ch chan<- T, v T, site int) {
+	t := runningTask()
+	if t == nil {
+		ch <- v
+		return
+	}
+	t.yieldAt(site)
+	for {
+		select {
+		case ch <- v:
+			t.unlocked(chanKey(ch), site)
+			return
+		default:
+			t.blockOn(chanKey(ch))
+		}
+	}
+}
+
+// Close replaces close(ch).
+func Close[T any](ch chan<- T, site int) {
+	close(ch)
+	if t := runningTask(); t != nil {
+		t.unlocked(chanKey(ch), site)
+	}
+}
